@@ -109,6 +109,11 @@ def classify_count(fx, f, bi, t):
                                 classes.add("ACCUMULATED")
                                 details.append("added to `%s`, loop continues while it is short of the request"
                                                % f.name_of_local.get(acc, "_%d" % acc))
+                                cl = _bound_clamped(f, body, acc)
+                                if cl:
+                                    # the loop completes only min(request, cap): the caller still sees a short count
+                                    classes.add("CLAMPED")
+                                    details.append("the loop's bound is narrowed by `%s`: at most that much is completed" % cl)
                                 callee = q.names(t)[1] or q.names(t)[0]
                                 if not _zero_progress_exit(f, body, tainted, h) and callee not in NONZERO:
                                     classes.add("NO-ZERO-EXIT")
@@ -362,6 +367,51 @@ def _loop_tests(f, body, acc):
     return False
 
 
+NARROWING = ("core::cmp::min", "core::cmp::Ord::min", "core::cmp::Ord::clamp", "core::cmp::min_by", "core::cmp::min_by_key")
+
+
+def _bound_clamped(f, body, acc):
+    """The quantity the accumulator is compared with in the loop test is the result of min()/clamp(): the loop
+    then completes a *narrowed* request, and what the function returns can be short of what it was asked for."""
+    du = defuse(f)
+    for bi in body:
+        t = f.blocks[bi]["term"]
+        if t["k"] != "switch" or t.get("op_ty") != "bool":
+            continue
+        l = op_local(t["op"])
+        for site, whole in du.defs.get(l, []):
+            if site.is_term:
+                continue
+            rv = site.node["rv"]
+            if not (rv["k"] == "bin" and rv["op"] in CMP):
+                continue
+            la, lb = op_local(rv["a"]), op_local(rv["b"])
+            if la is not None and _same_var(f, la, acc):
+                other = lb
+            elif lb is not None and _same_var(f, lb, acc):
+                other = la
+            else:
+                continue
+            seen = set()
+            work = [other]
+            while work:
+                x = work.pop()
+                if x is None or x in seen:
+                    continue
+                seen.add(x)
+                for s2, w2 in du.defs.get(x, []):
+                    if s2.is_term:
+                        if s2.node["k"] == "call":
+                            o, p_ = q.names(s2.node)
+                            if o in NARROWING or p_ in NARROWING:
+                                return (o or p_).split("::")[-1]
+                        continue
+                    r2 = s2.node["rv"]
+                    if r2["k"] in ("use", "cast"):
+                        work.append(op_local(r2["op"]))
+    return None
+
+
 def _sview(fx, f, _memo={}):
     k = (id(fx), f.path)
     if k not in _memo:
@@ -403,7 +453,7 @@ def run(fx, cfgname="A", reach=None):
                     if (_fails_on_zero(fv, tn) or _zero_not_forwarded(fv, tn)) and f.path not in NONZERO:
                         NONZERO.add(f.path)
                         changed = True
-                if "FORWARDED" in cls and not (cls & {"ACCUMULATED", "COMPARED"}):
+                if ("FORWARDED" in cls and not (cls & {"ACCUMULATED", "COMPARED"})) or "CLAMPED" in cls:
                     if f.path not in partial:
                         partial.add(f.path)
                         changed = True
